@@ -260,12 +260,17 @@ not a few lines. The C23 finding is one line, but ten of the project's own
 golden expectations record exactly the defective output.
 
 Observations outside the 27 properties, not judged by any check: a method named
-like the spelling of an ivar changes the output; one-letter class names
-(`class A`) are treated as constants in qualified references (`A::B.new` is
-untyped); a diamond of `include`s
-costs 2^depth lookups (finite, can reach the 500 ms watchdog); `--hover` with
-preloaded files hovers the preload's row; a line starting with an operator
-binds to the previous statement's value.
+like the spelling of an ivar changes the output; a line starting with an
+operator binds to the previous statement's value; compact notations combined
+with each other (`?A|B`, `*A|B`) do not mean what their long forms mean (C21
+speaks of each notation by itself); a call inside string interpolation is text
+to the tokenizer, so `--hover` on such a row shows nothing; `--hover` shows the
+last call evaluated on the row (the operator in `if m(1) > 2`), which C22 judges
+only on rows where the user method's call is that last call; `attr_writer` is
+not implemented (`attr_accessor` and `attr_reader` are). Three earlier entries
+of this list became findings of a check and were repaired: one-letter class
+names in qualified references (C13), the 2^depth walk over a diamond of
+includes (C02), `--hover` with preloaded files (C18).
 
 ### 11.7 Seeded changes: which check catches what
 """)
